@@ -12,6 +12,7 @@
 #include <stdio.h>
 #include <string.h>
 #include <errno.h>
+#include "dll.h"
 
 static nsync_mu mu;
 static nsync_cv cv;
@@ -20,6 +21,30 @@ static nsync_note cancel;
 #define SH_NOTIFIED 2
 
 static int64_t ts_ns (nsync_time t) { return (int64_t) t.tv_sec * 1000000000LL + t.tv_nsec; }
+
+/* canonical snapshot for the lock-step replay (replay/cv_replay.ml): the cv queue and the mutex queue as lists of
+   the memory blocks holding the waiter records, head first */
+static size_t snap_list (char *buf, size_t k, size_t n, nsync_dll_element_ *last) {
+	nsync_dll_element_ *p;
+	if (last != NULL) {
+		p = last->next;
+		for (;;) {
+			char nm[40];
+			vrt_region_name (p->container, nm, sizeof (nm));
+			k += snprintf (buf + k, n - k, " %s", nm);
+			if (p == last || k > n - 60) break;
+			p = p->next;
+		}
+	}
+	return k;
+}
+static void snapshot (char *buf, size_t n) {
+	size_t k = 0;
+	k += snprintf (buf + k, n - k, "CVQ");
+	k = snap_list (buf, k, n, cv.waiters);
+	k += snprintf (buf + k, n - k, " | MQ");
+	k = snap_list (buf, k, n, mu.waiters);
+}
 
 static void monitor (volatile void *p, uint32_t o, uint32_t n, const char *file, int line) {
 	size_t L = strlen (file);
@@ -37,7 +62,9 @@ static int checked_wait (int writer, int timed, int cancellable) {
 	int r;
 	if (timed) dl = vrt_abs ((int64_t) vrt_rand (6) * 700 - 700);
 	vrt_releasing (&mu, writer);
+	vrt_note ("wait %d %lld %d", vrt_self (), timed ? (long long) ts_ns (dl) : -1LL, cancellable);  /* for the lock-step replay */
 	r = nsync_cv_wait_with_deadline (&cv, &mu, dl, cancellable ? cancel : NULL);
+	vrt_note ("ret %d %d", vrt_self (), r);
 	vrt_acquired (&mu, writer);
 	if (r == ETIMEDOUT) {
 		vrt_count ("ret_timeout");
@@ -141,6 +168,36 @@ static void m2_reader (void *a) {
 	}
 }
 
+/* MODE 3 (wait_n): the token monitor of MODE 0 in which some consumers wait on the cv through nsync_wait_n
+   (cv_enqueue / cv_dequeue with a record in the caller's frame), with and without a deadline, next to native
+   waiters; the producers signal or broadcast inside or after the critical section. */
+static void my_lock (void *m) { nsync_mu_lock ((nsync_mu *) m); vrt_acquired (m, 1); }
+static void my_unlock (void *m) { vrt_releasing (m, 1); nsync_mu_unlock ((nsync_mu *) m); }
+static void nconsumer (void *a) {
+	int timed = (int) (long) a;
+	int r = 0;
+	struct nsync_waitable_s wb, *pw[1];
+	wb.v = &cv; wb.funcs = &nsync_cv_waitable_funcs; pw[0] = &wb;
+	nsync_mu_lock (&mu); vrt_acquired (&mu, 1);
+	while (tokens == 0 && r == 0) {
+		nsync_time dl = nsync_time_no_deadline;
+		if (timed) dl = vrt_abs ((int64_t) vrt_rand (6) * 700 - 700);
+		vrt_note ("waitn %d %lld", vrt_self (), timed ? (long long) ts_ns (dl) : -1LL);
+		r = nsync_wait_n (&mu, &my_lock, &my_unlock, dl, 1, pw);
+		vrt_note ("retn %d %d", vrt_self (), r);
+		if (vrt_holders (&mu, 1) != 1) vrt_fail ("C11", "nsync_wait_n returned without holding the mutex");
+		if (r == 1) {
+			vrt_count ("retn_timeout");
+			if (!timed) vrt_fail ("C11", "nsync_wait_n without deadline returned count");
+			if (vrt_now_ns () < ts_ns (dl)) vrt_fail ("C11", "nsync_wait_n returned count before the deadline");
+		} else if (r == 0) vrt_count ("retn_woken");
+		else vrt_fail ("C11", "result %d out of range", r);
+	}
+	if (tokens > 0) { tokens--; taken++; }
+	else if (r == 0) vrt_fail ("HARNESS", "loop exit");
+	vrt_releasing (&mu, 1); nsync_mu_unlock (&mu);
+}
+
 static void debugger (void *a) {
 	int k;
 	char buf[200];
@@ -161,7 +218,24 @@ int main (void) {
 	vrt_register (&mu, sizeof (mu), "mu0");
 	vrt_register (&cv, sizeof (cv), "cv0");
 	vrt_set_write_monitor (monitor);
-	if (mode == 0) {
+	vrt_set_snapshot (snapshot);
+	if (mode == 3) {
+		int nc = 2 + (int) vrt_rand (3), np = 1 + (int) vrt_rand (2), left, nn = 0;
+		left = nc;
+		for (i = 0; i < nc; i++) {
+			int kind = (int) vrt_rand (4);     /* 0,1: wait_n caller (plain, timed); 2,3: native waiter (plain, timed) */
+			if (i == nc - 1 && nn == 0) kind &= 1;
+			snprintf (nm[i], 8, "%c%d", kind < 2 ? 'n' : 'c', i);
+			if (kind < 2) { nn++; vrt_thread (nm[i], nconsumer, (void *) (long) kind); }
+			else vrt_thread (nm[i], consumer, (void *) (long) (kind & 1));
+		}
+		for (i = 0; i < np; i++) {
+			int n = (i == np - 1) ? left : (int) vrt_rand (left + 1);
+			left -= n;
+			snprintf (nm[6 + i], 8, "p%d", i);
+			if (n > 0) vrt_thread (nm[6 + i], producer, (void *) (long) n);
+		}
+	} else if (mode == 0) {
 		int nc = 2 + (int) vrt_rand (2), np = 1 + (int) vrt_rand (2), left;
 		int any_cancel = 0;
 		cancel = nsync_note_new (NULL, nsync_time_no_deadline);
